@@ -162,55 +162,51 @@ macro_rules! c27_harness {
     };
 }
 
-// sequences (each straddles chunk boundaries with a partially filled internal buffer):
-//  A: peek, u8, u16, has_more, u32
-//  B: u8, slice(k), has_more, arr3, check_eor(k)        k symbolic <= 9
-//  C: usize, has_more, u8, slice(k), u8
-//  D: u32, peek, u32, has_more, u8
-//  E: check_eor(k), u64, has_more, u8, check_eor(k)
-//  F: bool, u16, arr3, has_more, usize
-//  G: slice(k), slice(k), has_more, peek, u8
-//  H: u128, has_more, arr5, peek, u16
-// ---- quick tier: content lengths 0..=5 (1+1+2+4+8+16 = 32 schedules per sequence) ------------------------------
-//@ harness=c27__a_len0to5 tier=quick kind=prove cap=1200 :: seq A [peek,u8,u16,more,u32]: adapter == slice reader, contents symbolic, every length 0..=5 x every chunk schedule (32)
-c27_harness!(c27__a_len0to5, 0, 4, 12, [peek, u8, u16, more, u32]);
-//@ harness=c27__b_len0to5 tier=quick kind=prove cap=1200 :: seq B [u8,slice(k<=9),more,arr3,eor(k<=9)]: every length 0..=5 x every schedule
-c27_harness!(c27__b_len0to5, 0, 5, 18, [u8, slice, more, arr3, eor]);
-//@ harness=c27__c_len0to5 tier=quick kind=prove cap=1200 :: seq C [usize,more,u8,slice(k),u8]: every length 0..=5 x every schedule
-c27_harness!(c27__c_len0to5, 0, 5, 18, [usize, more, u8, slice, u8]);
-//@ harness=c27__d_len0to5 tier=quick kind=prove cap=1200 :: seq D [u32,peek,u32,more,u8]: every length 0..=5 x every schedule
-c27_harness!(c27__d_len0to5, 0, 5, 18, [u32, peek, u32, more, u8]);
-//@ harness=c27__e_len0to5 tier=quick kind=prove cap=1200 :: seq E [eor,u64,more,u8,eor]: every length 0..=5 x every schedule
-c27_harness!(c27__e_len0to5, 0, 5, 18, [eor, u64, more, u8, eor]);
-//@ harness=c27__f_len0to5 tier=quick kind=prove cap=1200 :: seq F [bool,u16,arr3,more,usize]: every length 0..=5 x every schedule
-c27_harness!(c27__f_len0to5, 0, 5, 18, [bool, u16, arr3, more, usize]);
-//@ harness=c27__g_len0to5 tier=quick kind=prove cap=1200 :: seq G [slice,slice,more,peek,u8]: every length 0..=5 x every schedule
-c27_harness!(c27__g_len0to5, 0, 5, 18, [slice, slice, more, peek, u8]);
-//@ harness=c27__h_len0to5 tier=quick kind=prove cap=1200 :: seq H [u128,more,arr5,peek,u16]: every length 0..=5 x every schedule
-c27_harness!(c27__h_len0to5, 0, 5, 18, [u128, more, arr5, peek, u16]);
+// Operation sequences (each straddles chunk boundaries with a partially filled internal buffer; k symbolic <= 9):
+//  S1: slice(k), u8, slice(k), has_more        S2: peek, u8, u16, has_more, u32
+//  S3: u8, slice(k), arr3, check_eor(k)        S4: usize, u8, slice(k), u8
+//  S5: u16, u16, peek, has_more                S6: check_eor(k), u32, has_more, u8
+//  S7: bool, arr3, usize                       S8: slice(k), u16, peek, u64
+// ---- quick tier: every content length 0..=4 x every chunk schedule (1+1+2+4+8 = 16 runs per sequence) -------------
+//@ harness=c27__s1_len0to4 tier=quick kind=prove cap=1500 :: S1 [slice(k),u8,slice(k),more]: adapter == slice reader (values and error kinds), contents symbolic, lengths 0..=4 x all 16 chunk schedules
+c27_harness!(c27__s1_len0to4, 0, 4, 12, [slice, u8, slice, more]);
+//@ harness=c27__s2_len0to4 tier=quick kind=prove cap=1500 :: S2 [peek,u8,u16,more,u32], lengths 0..=4 x all schedules
+c27_harness!(c27__s2_len0to4, 0, 4, 12, [peek, u8, u16, more, u32]);
+//@ harness=c27__s3_len0to4 tier=quick kind=prove cap=1500 :: S3 [u8,slice(k),arr3,eor(k)], lengths 0..=4 x all schedules
+c27_harness!(c27__s3_len0to4, 0, 4, 12, [u8, slice, arr3, eor]);
+//@ harness=c27__s4_len0to4 tier=quick kind=prove cap=1500 :: S4 [usize,u8,slice(k),u8], lengths 0..=4 x all schedules
+c27_harness!(c27__s4_len0to4, 0, 4, 12, [usize, u8, slice, u8]);
+//@ harness=c27__s5_len0to4 tier=quick kind=prove cap=1500 :: S5 [u16,u16,peek,more], lengths 0..=4 x all schedules
+c27_harness!(c27__s5_len0to4, 0, 4, 12, [u16, u16, peek, more]);
+//@ harness=c27__s6_len0to4 tier=quick kind=prove cap=1500 :: S6 [eor(k),u32,more,u8], lengths 0..=4 x all schedules
+c27_harness!(c27__s6_len0to4, 0, 4, 12, [eor, u32, more, u8]);
+//@ harness=c27__s7_len0to4 tier=quick kind=prove cap=1500 :: S7 [bool,arr3,usize], lengths 0..=4 x all schedules
+c27_harness!(c27__s7_len0to4, 0, 4, 12, [bool, arr3, usize]);
+//@ harness=c27__s8_len0to4 tier=quick kind=prove cap=1500 :: S8 [slice(k),u16,peek,u64], lengths 0..=4 x all schedules
+c27_harness!(c27__s8_len0to4, 0, 4, 12, [slice, u16, peek, u64]);
 
-// ---- thorough tier: lengths 6, 7, 8 (32 + 64 + 128 schedules) ---------------------------------------------------
-//@ harness=c27__a_len6 tier=thorough kind=prove cap=3600 :: seq A, length 6, all 32 schedules
-c27_harness!(c27__a_len6, 6, 6, 34, [peek, u8, u16, more, u32]);
-//@ harness=c27__b_len6 tier=thorough kind=prove cap=3600 :: seq B, length 6, all 32 schedules
-c27_harness!(c27__b_len6, 6, 6, 34, [u8, slice, more, arr3, eor]);
-//@ harness=c27__c_len6 tier=thorough kind=prove cap=3600 :: seq C, length 6, all 32 schedules
-c27_harness!(c27__c_len6, 6, 6, 34, [usize, more, u8, slice, u8]);
-//@ harness=c27__d_len6 tier=thorough kind=prove cap=3600 :: seq D, length 6, all 32 schedules
-c27_harness!(c27__d_len6, 6, 6, 34, [u32, peek, u32, more, u8]);
-//@ harness=c27__e_len6 tier=thorough kind=prove cap=3600 :: seq E, length 6, all 32 schedules
-c27_harness!(c27__e_len6, 6, 6, 34, [eor, u64, more, u8, eor]);
-//@ harness=c27__f_len6 tier=thorough kind=prove cap=3600 :: seq F, length 6, all 32 schedules
-c27_harness!(c27__f_len6, 6, 6, 34, [bool, u16, arr3, more, usize]);
-//@ harness=c27__a_len7 tier=thorough kind=prove cap=3600 :: seq A, length 7, all 64 schedules
-c27_harness!(c27__a_len7, 7, 7, 66, [peek, u8, u16, more, u32]);
-//@ harness=c27__b_len7 tier=thorough kind=prove cap=3600 :: seq B, length 7, all 64 schedules
-c27_harness!(c27__b_len7, 7, 7, 66, [u8, slice, more, arr3, eor]);
-//@ harness=c27__c_len7 tier=thorough kind=prove cap=3600 :: seq C, length 7, all 64 schedules
-c27_harness!(c27__c_len7, 7, 7, 66, [usize, more, u8, slice, u8]);
-//@ harness=c27__g_len7 tier=thorough kind=prove cap=3600 :: seq G, length 7, all 64 schedules
-c27_harness!(c27__g_len7, 7, 7, 66, [slice, slice, more, peek, u8]);
-//@ harness=c27__e_len8 tier=thorough kind=prove cap=7200 :: seq E, length 8 (u64 exactly fits), all 128 schedules
-c27_harness!(c27__e_len8, 8, 8, 130, [eor, u64, more, u8, eor]);
-//@ harness=c27__a_len8 tier=thorough kind=prove cap=7200 :: seq A, length 8, all 128 schedules
-c27_harness!(c27__a_len8, 8, 8, 130, [peek, u8, u16, more, u32]);
+// ---- thorough tier: lengths 5, 6, 7, 8 (16 + 32 + 64 + 128 schedules) ----------------------------------------------
+//@ harness=c27__s1_len5 tier=thorough kind=prove cap=7200 :: S1, length 5, all 16 schedules
+c27_harness!(c27__s1_len5, 5, 5, 18, [slice, u8, slice, more]);
+//@ harness=c27__s2_len5 tier=thorough kind=prove cap=7200 :: S2, length 5, all 16 schedules
+c27_harness!(c27__s2_len5, 5, 5, 18, [peek, u8, u16, more, u32]);
+//@ harness=c27__s3_len5 tier=thorough kind=prove cap=7200 :: S3, length 5, all 16 schedules
+c27_harness!(c27__s3_len5, 5, 5, 18, [u8, slice, arr3, eor]);
+//@ harness=c27__s4_len5 tier=thorough kind=prove cap=7200 :: S4, length 5, all 16 schedules
+c27_harness!(c27__s4_len5, 5, 5, 18, [usize, u8, slice, u8]);
+//@ harness=c27__s5_len5 tier=thorough kind=prove cap=7200 :: S5, length 5, all 16 schedules
+c27_harness!(c27__s5_len5, 5, 5, 18, [u16, u16, peek, more]);
+//@ harness=c27__s6_len5 tier=thorough kind=prove cap=7200 :: S6, length 5, all 16 schedules
+c27_harness!(c27__s6_len5, 5, 5, 18, [eor, u32, more, u8]);
+//@ harness=c27__s8_len5 tier=thorough kind=prove cap=7200 :: S8, length 5, all 16 schedules
+c27_harness!(c27__s8_len5, 5, 5, 18, [slice, u16, peek, u64]);
+//@ harness=c27__s1_len6 tier=thorough kind=prove cap=10800 :: S1, length 6, all 32 schedules
+c27_harness!(c27__s1_len6, 6, 6, 34, [slice, u8, slice, more]);
+//@ harness=c27__s2_len6 tier=thorough kind=prove cap=10800 :: S2, length 6, all 32 schedules
+c27_harness!(c27__s2_len6, 6, 6, 34, [peek, u8, u16, more, u32]);
+//@ harness=c27__s4_len6 tier=thorough kind=prove cap=10800 :: S4, length 6, all 32 schedules
+c27_harness!(c27__s4_len6, 6, 6, 34, [usize, u8, slice, u8]);
+//@ harness=c27__s8_len8 tier=thorough kind=prove cap=14400 edge :: S8, length 8 (u64 fits exactly), all 128 schedules (edge: may exceed the cap)
+c27_harness!(c27__s8_len8, 8, 8, 130, [slice, u16, peek, u64]);
+//@ harness=c27__s2_len7 tier=thorough kind=prove cap=14400 edge :: S2, length 7, all 64 schedules (edge)
+c27_harness!(c27__s2_len7, 7, 7, 66, [peek, u8, u16, more, u32]);
